@@ -11,7 +11,7 @@ NOTE = ("Lean 4.33 kernel; axioms propext/Classical.choice/Quot.sound only (audi
 
 CHECKS = {
     "C07": dict(
-        text="All clauses of C07 are Lean theorems over the reals about Model.Kin (gamma>=1, speed in (0,1), shower energy, decay length formula/sign/antitone/exponential law, decay altitude = altitude of the explicit point, >=0, monotone in length and angle). The model is tied to taus.py/eas.py by running the real Taus.__call__ and EAS.altDec next to the Float instance of the same model, with the physical constants pinned in the model.",
+        text="All clauses of C07 are Lean theorems over the reals about Model.Kin (gamma>=1, speed in (0,1), shower energy, decay length formula/sign/antitone/exponential law, decay altitude = altitude of the explicit point, >=0, monotone in length and angle). The model is tied to taus.py/eas.py by running the real Taus.__call__ and EAS.altDec next to the Float instance of the same model, with the physical constants pinned in the model. That every tau energy reachable from the shipped tables is above the tau mass (so the speed is real) is proved in Props/C18 (shipped_min_tau_energy_v*, reachable_tau_above_mass) and re-checked whenever the tables change.",
         ref="4 C07", technique="Lean 4 theorems over R (Mathlib) on a hand-written model + Float-instance differential correspondence against the real code"),
 }
 
@@ -23,7 +23,7 @@ CHECKS.update({
         text="Proved in Lean for all inputs and all call histories: the exit-probability state machine (table floored in place by each call) returns, for every history of earlier calls, the value a fresh object returns (floor idempotent); inside the table the value is 10^(bilinear of log10 of the floored table), lies between any bounds of the four surrounding floored nodes, is in (0,1] (uses the kernel-checked fact that all shipped entries are in [0,1]), reproduces floored nodes exactly, clamps low angles, returns the 2^-23 floor above the maximum angle and rejects out-of-range energies. Tied to taus.py by running Taus.tau_exit_prob on fresh objects and after random histories against the model at Float and against the raw HDF5 content. Observed only: scipy RegularGridInterpolator = the bilinear model.",
         ref="4 C05", technique="Lean 4 theorems on a state-machine model (history independence by induction) + kernel-checked data theorems + Float-model correspondence"),
     "C18": dict(
-        text="Proved in Lean: every node of every shipped table meets the samplers' preconditions (axes strictly increasing, CDF rows non-decreasing from 0 to 1 within 2^-50, exit probabilities <= 1) by kernel evaluation over the regenerated tables; slicing at an arbitrary coordinate is the linear blend of the neighbouring sub-grids and exact at nodes; the mask/shift/xor row interpolation equals ordinary piecewise-linear interpolation on every non-decreasing row with plateaux. PARTIAL: the HDF5/FITS round trip is third-party I/O and is explored on the real NssGrid.write/read (random grids, 1-4 dims, dtypes, names), not proved; 'smallest reachable tau energy above the tau mass' is checked numerically on the shipped tables each run, not yet proved.",
+        text="Proved in Lean: every node of every shipped table meets the samplers' preconditions (axes strictly increasing, CDF rows non-decreasing from 0 to 1 within 2^-50, exit probabilities <= 1) by kernel evaluation over the regenerated tables; slicing at an arbitrary coordinate is the linear blend of the neighbouring sub-grids and exact at nodes; the mask/shift/xor row interpolation equals ordinary piecewise-linear interpolation on every non-decreasing row with plateaux. 'Smallest reachable tau energy above the tau mass' is proved for all three versions: every energy the sampler can return for any in-range neutrino energy and angle is >= 1000 GeV > m_tau (kernel-checked zero prefixes of the CDF rows and slab bounds, lifted through the bilinear interpolation and the inverse transform). PARTIAL: the HDF5/FITS round trip is third-party I/O and is explored on the real NssGrid.write/read (random grids, 1-4 dims, dtypes, names), not proved.",
         ref="4 C18", technique="Lean 4 kernel-checked data theorems over regenerated tables + theorems on the interpolation model + exploration of the real file I/O"),
 })
 
